@@ -5,14 +5,15 @@ import random
 import threading
 
 from . import c14 as C14
+from . import c18gc as GCX
 from . import c18lib as L
 from . import c18raw as RAW
 from . import subserver as SUB
 
 PROPERTY = "C18"
 DRIVER = "TraitsVerif/Driver/Persist.lean"
-PROPS_MODULES = ["TraitsVerif.Props.C18"]
-TRANSLATORS = ["ctables"]
+PROPS_MODULES = ["TraitsVerif.Props.C18", "TraitsVerif.Props.C18GC"]
+TRANSLATORS = ["ctables", "crefpaths", "ctraverse"]
 RULE = ("(a) tables: proofs by `decide` over the tables/guards translated from the working tree's ctraits.c; T cases "
         "(CTrait(kind) + set_validate/delegate/_set_property/post_setattr with in/out-of-range integers, then "
         "__getstate__ indices and __setstate__) compare the FuncIndex model with the real extension in a subprocess. "
@@ -41,11 +42,28 @@ RULE = ("(a) tables: proofs by `decide` over the tables/guards translated from t
         "payload either counted exactly or owned by the traits only (weak reference checked right after the call, "
         "before any collection) and equipped with a finalizer that looks for itself in every field of every "
         "trait; compared with the event machine Model.RefLedger.Raw (incref / decref / store, checkpoints after "
-        "each decref)")
+        "each decref). (f) collector interface and refused calls (props/c18gc.py, subprocess; twins of Props/C18GC): "
+        "#GREF - gc.get_referents of generated HasTraits instances (9 member populations) and CTraits (heap / static "
+        "type, every subset of the 8 reference members set to distinct or shared payloads) compared as a multiset of "
+        "identities with what the members hold, the class exactly once; #GLIVE - a class defined in a function and "
+        "referenced by 1-4 frame locals, 0-7 instances dropped in reference cycles of 8 shapes, gc.collect(), then the "
+        "class is used; #REJ - every raw CTrait setter x every malformed argument shape (about 150) x 9 valid prior "
+        "configurations: if the call raises, the API-visible state and the behaviour of the trait on fresh objects "
+        "(default_value_for / read / assign / delete, instance trait and class attribute) must be what they were")
 TRUSTED = [
     "translator ctables.py (regex reader of ctraits.c, fails closed): tables, assignment sites, guards, constants, "
     "stealing calls with the releases that can follow them (else arms of the same `if` excluded, loops and gotos "
     "ignored), releases applied directly to struct fields, the copies of trait_clone",
+    "translator crefpaths.py (tokenizer + recursive-descent reader of the C statement subset of 36 functions of the "
+    "attribute get/set core, abstract interpretation of every control-flow path, fails closed): its API tables - which "
+    "calls return a NEW reference (PyObject_Call, PyTuple_Pack, PyDict_New, default_value_for, ->validate(), "
+    "->getattr(), ...), which a BORROWED one (PyDict_GetItem, PyTuple_GET_ITEM, ...), which STEAL (PyErr_Restore, "
+    "PyException_SetCause) or STORE (PyTuple_SET_ITEM, PyList_SET_ITEM), which are reference-neutral - are trusted, "
+    "as are: struct fields keep their value across calls, loops unrolled 0-2 times, target and source of trait_clone "
+    "not aliased",
+    "translator ctraverse.py (regex reader, fails closed): struct members declared `Py...Object *` are the owned "
+    "references of the type; tp_traverse / tp_clear bodies are flat lists of Py_VISIT / Py_CLEAR statements (anything "
+    "else is refused); the order of `exit` / `store` events of the setters is TEXT order, not control-flow order",
     "PyType_GenericNew zero-fills a new CTrait (post_setattr / validate / delegate_attr_name start NULL)",
     "sys.getrefcount and gc.collect of CPython 3.12 (immortal objects - None, small ints, interned str - are not "
     "tracked: names are str-subclass instances)",
@@ -127,6 +145,9 @@ def corpus():
         # F75 / F76 / F77 / F78 as correspondence cases (exception class instead of a crash)
         "H|otc|0 3|0:rs", "H|raw|0 3|0:rs", "H|otc|2 2|0:rm:3 2:add:o",
         "#GC ctrait-default saveall", "#GC itrait-handler-closure saveall",
+        # round 5: what tp_traverse reports, a live class after a collection, a refused setter call followed by use
+        "#GREF hastraits||plain", "#GREF hastraits||all", "#GLIVE self-ref 0 1", "#GLIVE self-ref 1 2",
+        "#REJ set_default_value|cargs-none|int", "#REJ set_default_value|cargs-2tuple|const",
         "U|n n s c9|1 2 3 4|s", "U|s c9|1 2|v", "#V Tuple(Any,Any,Float) | t_conv3 | set",
         "#V Either(Str,Tuple(Any,Float)) | t_conv2 | set",
         "#V Either(Range,Float) | f5.5 | set", "#V Either(Range,Str) | f5.5 | set",
@@ -176,6 +197,12 @@ def generate(rng, tier):
     for c in RAW.gen_w(rng, {"quick": 60, "thorough": 1500}.get(tier, 400)):
         yield c
     for c in RAW.gen_a(rng, {"quick": 500, "thorough": 12000}.get(tier, 3000)):
+        yield c
+    for c in GCX.gen_gref(rng, {"quick": 40, "thorough": 600}.get(tier, 300)):
+        yield c
+    for c in GCX.gen_glive(rng, tier):
+        yield c
+    for c in GCX.gen_rej(rng, tier):
         yield c
     for _ in range(nT):
         yield C14.random_T(rng)
@@ -332,9 +359,24 @@ def run_a(case):
                        else "A:other"]
 
 
+def run_gcx(case, srv=None):
+    srv = srv or _server(False)
+    if case.startswith("#REJ "):
+        return GCX.run_rej(case, srv, SUB.crash_summary)
+    if case.startswith("#GREF "):
+        ans = srv.request({"k": "GREF", "spec": GCX.gref_spec(case)})
+        out, hits = GCX.judge_gref(case, ans, SUB.crash_summary)
+        return out, hits, ["GREF:" + GCX.gref_spec(case)["kind"]]
+    ans = srv.request({"k": "GLIVE", "spec": GCX.glive_spec(case)})
+    out, hits = GCX.judge_glive(case, ans, SUB.crash_summary)
+    return out, hits, ["GLIVE:" + GCX.glive_spec(case)["variant"]]
+
+
 def run_impl(case):
     if case.startswith("#GC "):
         return run_gc(case)
+    if case.startswith(("#GREF ", "#GLIVE ", "#REJ ")):
+        return run_gcx(case)
     if case.startswith("W|"):
         return run_w(case)
     if case.startswith("A|"):
@@ -435,6 +477,10 @@ def extra_checks(ctx):
     gc_specs = [{"scenario": sc, "mode": "plain"} for sc in SUB.GC_SCENARIOS]
     h_cases = gen_h(random.Random(ctx["seed"] * 31 + 7), 400)
     wa_cases = RAW.gen_w(random.Random(ctx["seed"] * 17 + 3), 200) + RAW.gen_a(random.Random(ctx["seed"] * 13 + 1), 1500)
+    # refused raw-setter calls followed by use, and the collector scenarios, under the sanitizer (known crashes of the
+    # normal build left out: they would only be found again)
+    wa_cases += [c for c in GCX.gen_rej(random.Random(ctx["seed"] * 11 + 9), "thorough") if "|del|" not in c]
+    wa_cases += GCX.gen_gref(random.Random(ctx["seed"] * 7 + 2), 100) + GCX.gen_glive(None, "quick")
     nthreads = 12
     hits = []
     lock = threading.Lock()
@@ -464,7 +510,9 @@ def extra_checks(ctx):
                         h["no_shrink"] = True
                         hits.append(h)
             for wc in (wa_cases[chunks.index(chunk)::nthreads] if chunk in chunks else []):
-                if wc.startswith("W|"):
+                if wc.startswith("#"):
+                    out, hs, _ = run_gcx(wc, srv)
+                elif wc.startswith("W|"):
                     ans = srv.request({"k": "W", "spec": RAW.w_spec(wc)})
                     out, hs = RAW.judge_w(wc, ans, True, SUB.crash_summary)
                 else:
